@@ -101,9 +101,11 @@ PROPS = {
         "domains": [{"name": "sched"}],
         "trusted": ["the verif-tagged event-log hooks in /repo (verifhook.Ev calls in task.go); guard outcomes of the generated Taskfile are what the "
                     "generator says (a wrong rendering shows up as a rejected trace)"],
-        "assumptions": ["guard outcomes are data of the abstract program (platform, requires, enum, precondition, prompt)"],
-        "level_text": "Theorems over every step and every accepted trace, all flags incl. --force/--force-all/--yes: platform/requires/enum decided at "
-                      "enter (ok/206/207, no slot, no command, not counted as a call); failed precondition => only precondFail (generic) or ctxErr; prompt "
+        "assumptions": ["guard outcomes are data of the abstract program (platform, requires, compiles, enum, precondition, prompt)"],
+        "level_text": "Theorems over every step and every accepted trace, all flags incl. --force/--force-all/--yes: platform/requires/compilation/enum decided at "
+                      "enter in that order — the order RunTask asks them, pinned by SchedTie.runTask_skeleton — the first failing guard alone deciding "
+                      "(ok/206/plain error/207, no slot, no command, not counted as a call: C13_early_classes, C13_guard_order); a task excluded by platforms: "
+                      "is skipped with success whatever its other guards would say (C13_platform_skip_first); failed precondition => only precondFail (generic) or ctxErr; prompt "
                       "without --yes => guardsPassed rejected, 205; an activation of a guarded task never starts a command (C13_no_cmd: guardedNoCmd, "
                       "noCmdMon); a failed precondition gives an error result (C13_precond_fails, waiters excepted); 202 for internal tasks before any event; "
                       "errors propagate through deps and task: calls (201 wrapping for direct callers). Codes tied to Gen.Codes. Tie: event log replay + "
@@ -296,10 +298,12 @@ def _sched(pid, text):
 _sched("C01", "Theorems over every accepted trace of the executor LTS (all programs, flags, interleavings): when a command of an activation starts, every "
               "dependency activation has entered, exited and returned ok (C01_deps_done_ok, C01_cmd_start); a dependency served by a dedup waiter "
               "returned only after the one registered execution finished, with that execution's result (C01_shared, C01_shared_dep); the raw monitors "
-              "wakeAfterDone / depsExitedBefore hold on every accepted trace.")
+              "wakeAfterDone / depsExitedBefore hold on every accepted trace. The log's dedup keys are numbered per (task, hash): an execution is shared "
+              "by references of one task only, so a dependency 'served' by the execution of a different task is a rejected log.")
 _sched("C06", "Theorems over every accepted trace: a dedup key is registered at most once and held by exactly one activation; only the registering "
               "activation runs a body, every other activation meeting the key becomes a waiter that never starts a command and returns the execution's "
-              "outcome after it finished; run: always never dedups. Key half (Props.C06Key): with a hash that reaches every part of the compiled task two "
+              "outcome after it finished — also when that one execution was cut short by a cancellation local to the caller that started it (stream "
+              "cut-short); run: always never dedups. Key half (Props.C06Key): with a hash that reaches every part of the compiled task two "
               "references of a when_changed task get the same key iff they are called with the same set of variable values, so for every arrival order "
               "the executions are exactly one per distinct set (whenChanged_exact, _order_indep); once executes the first reference only, always every "
               "reference; that the code's hash reaches the resolved variables, command texts, env: and the vars: of sub-calls and dependencies is the "
@@ -350,7 +354,9 @@ PROPS["C02"]["prop_modules"] = ["Props.C02", "Props.C02Vars"]
 _sched("C03", "Theorems over every accepted trace: after a command failure that is not ignored no later non-deferred entry of that activation starts "
               "(failStopMon); the failure propagates to callers (task: entries) and dependents (deps), which start nothing further; ignore_error is exact "
               "(command level: that shell command's exit status only; task level: exit statuses of its own entries only); exit codes from Gen.Codes: "
-              "201 / the command's status with --exit-code for own commands, callees and dependencies (one level + chain lemma). Status at full "
+              "201 / the command's status with --exit-code for own commands, callees and dependencies (one level + chain lemma). A task that does not "
+              "compile (template error in a task-level field; TaskDef.compileOk, program data like the guard outcomes) fails before any of its commands "
+              "and before it counts as a call or takes a slot (C03_compile_error_before_cmds). Status at full "
               "strength (C03_status_full, a theorem since the fix of C03-dedup-waiter-status): the execution of a task ends with the bare failure and "
               "a marker (Outcome); every activation that takes it - the executor and every dedup waiter - returns its own wrapping (wrapFor, "
               "OutInv_sound), so in every reachable configuration a top-level activation, executor or waiter, never returns a bare exit status nor a "
